@@ -175,6 +175,25 @@ func (b *Blocking) scanCall(fn *ssa.Function, ci ssa.CallInstruction) {
 			}
 			if kind != "" {
 				b.prim[fn] = append(b.prim[fn], BlockOp{Kind: kind, Target: Render(cc.Value, 3) + "." + name, At: ci})
+				// the receiver may be one of the library's own adapters (the manager's writer that terminates on a
+				// failed write): what that implementation does happens under the caller's locks as well
+				for _, e := range b.cgOut[fn] {
+					if e.Site != ci || e.Callee == nil || e.Callee.Func == nil {
+						continue
+					}
+					callee := e.Callee.Func
+					if callee.Synthetic != "" {
+						if c3 := unwrapSynthetic(callee); c3 != nil {
+							callee = c3
+						}
+					}
+					if o := callee.Origin(); o != nil {
+						callee = o
+					}
+					if len(callee.Blocks) > 0 && b.P.InModule(pkgPathOf(callee)) {
+						b.calls[fn] = append(b.calls[fn], callEdge{At: ci, Callee: callee, Go: isGo})
+					}
+				}
 				return
 			}
 		}
